@@ -91,7 +91,9 @@ func (r *record) String() string {
 	} else {
 		toStr = r.to.String()
 	}
-	return fmt.Sprintf("%s %s %s <%s> %s %s\t%s: %s\n", fromStr, toStr, r.name, r.email, r.unixtime, r.timeDiff, r.recType, r.message)
+	// one record per line: only the first line of a (commit) message goes into the log
+	message := strings.SplitN(r.message, "\n", 2)[0]
+	return fmt.Sprintf("%s %s %s <%s> %s %s\t%s: %s\n", fromStr, toStr, r.name, r.email, r.unixtime, r.timeDiff, r.recType, message)
 }
 
 type GoitLogger struct {
